@@ -55,6 +55,20 @@ fn law_check(xs: &[f64], cdf: impl Fn(f64) -> f64, mean: f64, var: f64, m4: f64)
     if xs.iter().any(|x| !x.is_finite()) {
         return Some("non-finite draw".into());
     }
+    // exact repeats: i.i.d. draws from a continuous law (53- or 24-bit grids) essentially never coincide; a stream that
+    // re-uses generator words (a generator cloned instead of advanced) repeats whole blocks
+    {
+        let mut s: Vec<u64> = xs.iter().map(|x| x.to_bits()).collect();
+        s.sort();
+        let dups = s.windows(2).filter(|w| w[0] == w[1]).count();
+        // f32-valued streams (upcast) live on a coarser grid: allow the birthday-paradox handful
+        // (streams derived from f32 draws live on a coarse grid and show the birthday-paradox handful; block re-use gives
+        // duplicates by the thousand)
+        let allowed = 10 + (n / 200.0) as usize;
+        if dups > allowed {
+            return Some(format!("{dups} exactly repeated values among {n} draws"));
+        }
+    }
     let m = xs.iter().sum::<f64>() / n;
     let v = xs.iter().map(|x| (x - m) * (x - m)).sum::<f64>() / n;
     if (m - mean).abs() > 6.0 * (var / n).sqrt() {
@@ -130,6 +144,28 @@ impl Target<f64, f64> for StdNormal1 {
         -0.5 * x[0] * x[0]
     }
 }
+/// an asymmetric proposal with an exact density: a Gaussian step with drift, `y = x + a + s·z`
+#[derive(Clone, Debug)]
+struct DriftWalk {
+    rng: SmallRng,
+    a: f64,
+    s: f64,
+}
+impl Proposal<f64, f64> for DriftWalk {
+    fn sample(&mut self, current: &[f64]) -> Vec<f64> {
+        let z: f64 = rand::Rng::sample(&mut self.rng, rand_distr::StandardNormal);
+        vec![current[0] + self.a + self.s * z]
+    }
+    fn logp(&self, from: &[f64], to: &[f64]) -> f64 {
+        let d = to[0] - from[0] - self.a;
+        -d * d / (2.0 * self.s * self.s) - (self.s * (2.0 * std::f64::consts::PI).sqrt()).ln()
+    }
+    fn set_seed(mut self, seed: u64) -> Self {
+        self.rng = SmallRng::seed_from_u64(seed);
+        self
+    }
+}
+
 /// sample correlation of two equally long sequences at a lag (b shifted by `lag`)
 fn xcorr(a: &[f64], b: &[f64], lag: i64) -> f64 {
     let n = a.len().min(b.len()) as i64;
@@ -448,6 +484,53 @@ pub fn run(out: &mut Out) {
                 });
             }
         }
+        // MH with an asymmetric proposal (drifted Gaussian step): the Hastings correction must enter with the right sign
+        {
+            let id = out.fresh_id("mom-mh-asym");
+            let g = Gauss { mean: vec![0.0], cov: vec![1.0], prec: vec![1.0], chol: vec![1.0] };
+            let init: Vec<Vec<f64>> = (0..n_chains).map(|_| g.draw(&mut rng)).collect();
+            let seed = rng.next();
+            let (a, sd) = (rng.uniform(0.3, 0.9) * if rng.coin(0.5) { 1.0 } else { -1.0 }, rng.uniform(0.8, 1.6));
+            if out.selected(&id) {
+                guard_case(out, &id.clone(), "C06:panic", 1, |out| {
+                    let mut s = MetropolisHastings::new(StdNormal1, DriftWalk { rng: SmallRng::seed_from_u64(1), a, s: sd }, init).seed(seed);
+                    let arr = s.run(out.n(2500, 6000) as usize, 0).unwrap();
+                    let chains: Vec<Vec<Vec<f64>>> = (0..n_chains).map(|c| (0..arr.shape()[1]).map(|t| vec![arr[[c, t, 0]]]).collect()).collect();
+                    moments_check(out, &id, "MH-asymmetric-proposal", &g, &chains);
+                });
+            }
+        }
+        // chains of an unseeded multi-chain sampler started from one point must not be copies of each other
+        {
+            let id = out.fresh_id("indep-unseeded");
+            if out.selected(&id) {
+                guard_case(out, &id.clone(), "C06:panic", 1, |out| {
+                    let g = random_gauss(&mut rng, 2);
+                    let start = g.draw(&mut rng);
+                    let distinct = |rows: Vec<Vec<u64>>| -> bool {
+                        let mut r = rows.clone();
+                        r.sort();
+                        r.dedup();
+                        r.len() == rows.len()
+                    };
+                    let mut nuts = NUTS::<f64, B64, AnyTarget>::new(g.any(), vec![start.clone(); 4], 0.8);
+                    let t = nuts.run(12, 8);
+                    let v: Vec<f64> = t.to_data().convert::<f64>().to_vec().unwrap();
+                    let rows: Vec<Vec<u64>> = v.chunks(12 * 2).map(|c| c.iter().map(|x| x.to_bits()).collect()).collect();
+                    out.count("predicate_evaluations");
+                    if !distinct(rows) {
+                        out.fail(&id, "C06:chains-not-independent:NUTS", "two chains of an unseeded NUTS sampler started from one point returned identical draws", 4, String::new());
+                    }
+                    let mut mh = MetropolisHastings::new(GaussT(g.any()), IsotropicGaussian::<f64>::new(0.8), vec![start.clone(); 4]);
+                    let a = mh.run(12, 0).unwrap();
+                    let rows: Vec<Vec<u64>> = (0..4).map(|c| (0..12).flat_map(|t| (0..2).map(move |k| (c, t, k))).map(|(c, t, k)| a[[c, t, k]].to_bits()).collect()).collect();
+                    out.count("predicate_evaluations");
+                    if !distinct(rows) {
+                        out.fail(&id, "C06:chains-not-independent:MH", "two chains of an unseeded MH sampler started from one point returned identical draws", 4, String::new());
+                    }
+                });
+            }
+        }
         {
             let id = out.fresh_id("mom-gibbs");
             let d = rng.range(2, 4) as usize;
@@ -516,12 +599,16 @@ pub fn run(out: &mut Out) {
                         let moved = chains.iter().map(|c| c.windows(2).filter(|w| w[0] != w[1]).count()).sum::<usize>() as f64 / (n_chains * (steps - 1)) as f64;
                         out.notes.push(format!("HMC-coarse-{}: eps {:.3}, acceptance rate {:.2}", $name, eps, moved));
                         moments_check(out, &id, &format!("HMC-coarse-{}", $name), &g, &chains);
-                        let init2: Vec<Vec<$T>> = (0..n_chains).map(|_| displaced_start(&g).iter().map(|x| *x as $T).collect()).collect();
-                        let mut s2 = HMC::<$T, $B, AnyTarget>::new(g.any(), init2, eps as $T, 3).set_seed(seed ^ 0x5555);
-                        let t2 = s2.run(steps, 400);
-                        let v2: Vec<f64> = t2.to_data().convert::<f64>().to_vec().unwrap();
-                        let chains2: Vec<Vec<Vec<f64>>> = (0..n_chains).map(|c| (0..steps).map(|k| v2[(c * steps + k) * d..(c * steps + k + 1) * d].to_vec()).collect()).collect();
-                        moments_check(out, &id, &format!("HMC-coarse-{}-displaced-start", $name), &g, &chains2);
+                        // (no displaced-start group here: with a fixed trajectory length close to a half period of some
+                        // direction HMC mixes arbitrarily slowly on a Gaussian, so "burn-in >> mixing time" cannot be
+                        // promised; a kernel that freezes is caught by the share of moves instead — at 60-75 % of the
+                        // stability limit the leapfrog energy error is small and far more than a quarter of the proposals
+                        // are accepted)
+                        out.count("predicate_evaluations");
+                        if moved < 0.25 {
+                            out.fail(&id, &format!("C06:kernel-frozen:HMC-coarse-{}", $name), "HMC hardly ever moves at a step size well inside the stability region", n_chains as u64,
+                                format!("share of transitions that moved: {moved:.3} (eps {eps:.3}, L = 3)"));
+                        }
                     });
                 }
             }};
